@@ -256,10 +256,11 @@ def rtLine (j : Json) : String :=
   -- ... and the conversion half of the contract: the token of a leaf text converts back to that leaf (narrower
   -- numeric widths do not: they are outside the theorem, and a recorded finding of the property)
   let convOk := toks.all fun t => !isLiteralKind t.tt ||
-    (match leaves.find? (fun p => p.2 == t.value), env.conv t with
-     | some p, some x => valEq p.1 x && p.1.tcode == x.tcode
-     | some _, none => false
-     | none, _ => true)
+    -- EVERY leaf that is written with this text must come back from it (two leaves of different widths can share a text)
+    (leaves.filter (fun p => p.2 == t.value)).all fun p =>
+      match env.conv t with
+      | some x => valEq p.1 x && p.1.tcode == x.tcode
+      | none => false
   let inThm := !deep && isCollB v && canonB Generated.formatterDefaultMaximum 0 v && leafOk && convOk
   let thmOk := !inThm || wide || (match m with
     | .ok t => (match parseTokens env (8 * (scan t).length + 16) (scan t) with | .value x => valEq x v | _ => false)
